@@ -3,5 +3,11 @@ package cli
 import "testing"
 
 func TestC04(t *testing.T) {
-	runProfile(t, profStage, runOpts{weights: stageWeights, fullContent: true, seedFiles: 2, decorate: true})
+	runProfile(t, profStage, runOpts{weights: stageWeights, fullContent: true, seedFiles: 2, decorate: true, pre: func(g *G) []Step {
+		// a quarter of the histories have an ignore list (written before anything is staged, rewritten later by `ignore-more`)
+		if g.Chance(25, "withIgnore") {
+			return []Step{{Op: "write", Path: ".goitignore", Data: g.IgnoreFile()}}
+		}
+		return nil
+	}})
 }
